@@ -3,7 +3,7 @@
    RegOK/HeapOK are the invariants of Proofs/RegInv.v; Inv = RegOK /\ HeapOK. *)
 From Coq Require Import List NArith ZArith.
 From DSD Require Import Base.Str Base.Errors Model.ComplexUtils Model.RegStr Model.Heap Model.Registry
-  Proofs.RegHeap Proofs.RegInv Proofs.RegCalls Proofs.RegExt Proofs.RegC04 Proofs.RegStep Proofs.RegC01 Proofs.RegIds.
+  Proofs.RegHeap Proofs.RegInv Proofs.RegCalls Proofs.RegExt Proofs.RegC04 Proofs.RegStep Proofs.RegC01 Proofs.RegIds Proofs.RegIds2 Proofs.RegExamples Proofs.RegFull.
 Import ListNotations.
 
 Theorem C01_RegOK_init : forall ct n, Inv ct (init ct n).
@@ -104,3 +104,29 @@ Theorem C01_counters : forall ct st o st' out,
   IdsSame st st'.
 Proof. exact counters_step. Qed.
 Print Assumptions C01_counters.
+
+(* (e) exact: one step moves at most the counter of the class addressed, by +1 from the value that
+   class sees (its own ID or the inherited one), and only when an object was constructed *)
+Theorem C01_counters_exact : forall ct st o c,
+  let s' := fst (step ct st o) in
+  cs_id (cget s' c) = cs_id (cget st c) \/
+  (exists z, class_id ct st c = Some z /\ cs_id (cget s' c) = Some (z + 1)%Z /\
+             constructed (snd (step ct st o)) = true).
+Proof. exact counters_exact. Qed.
+Print Assumptions C01_counters_exact.
+
+(* name_only for domains, whole operations: the only object a name-only request creates is x* from a
+   live x, with x's length (names whose base is unstarred) ... *)
+Theorem C01_name_only_domain : forall ct st dst c n st' id,
+  Good ct st -> base_unstarred n ->
+  step ct st (ODomain dst c (Some n) None None None) = (st', Created id) ->
+  starred n = true /\
+  exists p op l oo, live_obj (heap st) p op /\ o_cls op = c /\ o_name op = cname_of n /\ o_data op = DDom l /\
+                    hget (heap st') id = Some oo /\ o_data oo = DDom l /\ o_name oo = n /\ o_cls oo = c.
+Proof. exact name_only_domain. Qed.
+Print Assumptions C01_name_only_domain.
+
+(* ... and the guard is necessary: DomainS('a', 5); DomainS('a**') creates a** through a temporary a* *)
+Theorem C01_name_only_domain_refuted_for_double_star : ~ name_only_domain_full.
+Proof. exact name_only_domain_full_refuted. Qed.
+Print Assumptions C01_name_only_domain_refuted_for_double_star.
